@@ -439,7 +439,7 @@ func genF15(add func(tcase)) {
 // is), a Scan after the end delivers nothing more.
 
 func genF16(add func(tcase)) {
-	for _, mode := range []string{"scan-first", "header-twice", "scan-past-end", "header-between", "reader-1-byte", "reader-7-bytes", "reader-eof-with-data", "three-scans"} {
+	for _, mode := range []string{"scan-first", "header-twice", "scan-past-end", "header-between", "reader-1-byte", "reader-7-bytes", "reader-eof-with-data", "three-scans", "caller-appends"} {
 		for _, nb := range []int{0, 1, 2, 5, 14} {
 			var blocks []pbfgen.Block
 			for i := 0; i < nb; i++ {
